@@ -119,3 +119,27 @@ Fixpoint unclosed_arith (s : str) : bool :=
   | [] => false
   | _ :: r => (prefixb [DOL; LP; LP] s && negb (arith_closed 2 (skipn 3 s))) || unclosed_arith r
   end.
+
+(* analyzer._count_openers: substitutions bash would start in a text - "$(" that is not "$((" and
+   process substitutions outside single quotes (a backslash escapes the next character), plus pairs
+   of backticks *)
+Fixpoint count_openers_aux (s : str) (in_single in_double : bool) (count ticks : nat) {struct s} : nat :=
+  match s with
+  | [] => (count + Nat.div2 ticks)%nat
+  | c :: r =>
+      if in_single then count_openers_aux r (negb (N.eqb c 39)) in_double count ticks
+      else if N.eqb c 92 then
+        match r with
+        | [] => (count + Nat.div2 ticks)%nat
+        | _ :: r' => count_openers_aux r' false in_double count ticks
+        end
+      else if N.eqb c 39 && negb in_double then count_openers_aux r true in_double count ticks
+      else if N.eqb c 34 then count_openers_aux r false (negb in_double) count ticks
+      else if N.eqb c BT then count_openers_aux r false in_double count (S ticks)
+      else if N.eqb c DOL && match r with c2 :: r2 => N.eqb c2 LP && negb (match r2 with c3 :: _ => N.eqb c3 LP | [] => false end) | [] => false end
+        then count_openers_aux r false in_double (S count) ticks
+      else if (N.eqb c LT || N.eqb c GT) && match r with c2 :: _ => N.eqb c2 LP | [] => false end && negb in_double
+        then count_openers_aux r false in_double (S count) ticks
+      else count_openers_aux r false in_double count ticks
+  end.
+Definition count_openers (s : str) : nat := count_openers_aux s false false 0 0.
